@@ -161,7 +161,7 @@ pub fn extreme_count(n: usize, count: u32, pat: [u8; 3], l: usize) -> (Option<(S
     let c = TCall::Repeat { pixel: pat[..n].iter().map(|x| *x as u16).collect(), count };
     let out = t.call(&c);
     let b = t.bd.borrow();
-    let mk = |k: &str, m: String| Some((format!("send_repeated_pixel(count*N>=2^32)/{k}"), format!("N={n}, count={count}, pixel {:02x?}, buffer {l}: {m}", &pat[..n])));
+    let mk = |k: &str, m: String| Some((format!("send_repeated_pixel(large count or buffer)/{k}"), format!("N={n}, count={count}, pixel {:02x?}, buffer {l}: {m}", &pat[..n])));
     let f = match out {
         Outcome::Ok => {
             if b.spi_bytes != want {
